@@ -443,11 +443,11 @@ class MementoFunction(MementoFunctionBase):
                             [rule.describe() for rule in changed_rules],
                         )
                     )
-                else:
-                    if self._calculated_version is None:
-                        self._calculated_version = entry.version()
-                        self._update_fn_reference()
+                elif self._calculated_version is not None:
                     return
+                # Otherwise this instance has not computed a version yet and has no hash rules
+                # that could tell whether the cached version of its name is still valid (and
+                # the cached entry may belong to another definition of that name): compute it
 
         # Otherwise, it needs to be calculated based on code hash and dependencies
         version = self._recompute_version()
